@@ -60,7 +60,7 @@ def _inp(run, **extra):
 
 
 def analyse(ctx, run, bools, reports):
-    inputs, outputs, iterations = mc.parse_settings(run.settings)
+    inputs, outputs, _ = mc.parse_settings(run.settings)
     names = [n for n, w, _ in inputs if mc.dist_of(w)]
     part = f'{run.program}-rows'
     if run.result_text is None:
@@ -78,7 +78,7 @@ def analyse(ctx, run, bools, reports):
     # --- every successful work package left one well-formed row, nothing else is in the row area
     found_all = None
     if any(t['trace'] for t in run.ok_tasks):
-        pairs, foreign, missing = mc.match_rows(run, rows)
+        _, foreign, missing = mc.match_rows(run, rows)
         for r in foreign[:2]:
             ctx.violate('property', 'rows:foreign', 'a row of the result file carries sampled values no successful iteration drew '
                         '(torn, interleaved or written by a failed iteration)', inp=_inp(run), observed=r['line'][:300])
@@ -112,6 +112,11 @@ def analyse(ctx, run, bools, reports):
                 ctx.violate('corr', 'rowcodec', 'row differs from the one the model assembles from the re-simulated report',
                             inp=_inp(run, row=r['line']), expected='render_row (Model/MCRows.v)', observed=r['line'][:300])
         bools.append((term, bad))
+        # the statistics step reads the row back as the tokens an independent reading sees (they feed the recomputed statistics)
+        if r['outs']:
+            bools.append((f'opt_strings_eqb (parse_row {_b(r["line"] + chr(10))}) (Some {_slist(map(_b, r["outs"]))})',
+                          lambda r=r: ctx.violate('corr', 'rowparse', 'the modelled re-reading of a row differs from the independent one',
+                                                  inp=_inp(run, row=r['line']), expected=r['outs'], observed='parse_row (Model/MCRows.v)')))
         fresh.add(key)
     missing_labels = found_all is False or (rows and any(len(r['outs']) != len(outputs) for r in rows))
     if missing_labels:
@@ -169,7 +174,7 @@ def specs(ctx):
     geo2_st = (mc.MC_TESTS / 'MC_GEOPHIRES_Settings_file-2.txt').read_text().rsplit('ITERATIONS', 1)[0]
     geo = (mc.MC_TESTS / 'GEOPHIRES-example1.txt').read_text()
     geo2 = (mc.MC_TESTS / 'GEOPHIRES-example_SHR-2.txt').read_text()
-    failing = [('Reservoir Temperature', 'uniform', [30, 70]), ('Reservoir Area', 'uniform', [50.0, 120.0]),
+    failing = [('Reservoir Temperature', 'uniform', [40, 70]), ('Reservoir Area', 'uniform', [50.0, 120.0]),
                ('Reservoir Porosity', 'normal', [97, 3])]
     out = [dict(name='contended', W=16, st=mc.make_settings(rnd, 40 if q else 300)),
            dict(name='serial', W=1, st=mc.make_settings(rnd, 12 if q else 60)),
@@ -178,13 +183,7 @@ def specs(ctx):
     if not q:
         out += [dict(name=f'extra{k}', W=rnd.choice([2, 3, 8, 16]), st=mc.make_settings(rnd, rnd.choice([25, 80]))) for k in range(8)]
         out += [dict(name='geophires2', W=4, st=geo2_st + 'ITERATIONS, 12\n', program='GEOPHIRES', base=geo2)]
-    # an OUTPUT label that no report carries: between found ones, and alone
-    one = mc.make_settings(rnd, 4, n_inputs=2, outputs=['Stored Heat (fluid)', 'No Such Output', 'Producible Electricity (reservoir)'])
-    out += [dict(name='missing-one', W=2, st=one), dict(name='missing-only', W=2, st=mc.make_settings(rnd, 4, n_inputs=2, outputs=['No Such Output']))]
-    # a base file whose last line carries a comment and no final new line
-    out.append(dict(name='nonewline', W=2, st=mc.make_settings(rnd, 5, inputs=[('Reservoir Area', 'uniform', [50.0, 120.0]),
-               ('Reservoir Temperature', 'uniform', [130, 170])], n_outputs=2), base=mc.hiprax_base().rstrip(chr(10)) + ', -- years'))
-    return out
+    return mc.corpus_specs('C14') + out     # seeds first: the witnesses of the two refuted clauses
 
 
 def correspondence(ctx, proofs_ok=True):
